@@ -181,7 +181,8 @@ def run_spec(p, res):
     # ---------- one LONG call (the point set repeated to 2^15+3 points, 1-D and as 3 rows): every point is answered as in the short call
     if kind == "memoryless":
         t1, _ = present(Yh, "1d")
-        for name, f, NL in (("hard", lambda z: dem(z), (1 << 15) + 3), ("soft", lambda z: dem(z, 0.7), (1 << 12) + 3)):
+        # (2^15+3: an odd count beyond every power-of-two chunk; 24576 = 3*2^13 and 12288 = 3*2^12: EXACT multiples of chunk sizes of the form 3*2^j / order)
+        for name, f, NL in (("hard", lambda z: dem(z), (1 << 15) + 3), ("hard", lambda z: dem(z), 24576), ("hard", lambda z: dem(z), 12288), ("soft", lambda z: dem(z, 0.7), (1 << 12) + 3)):
             if name == "soft" and len(pts) > 16:
                 continue             # the library's soft path loops per bit and symbol: long inputs only for the small constellations
             reps = NL // t1.shape[0] + 1
